@@ -157,7 +157,17 @@ func (c *Client) ListOffsets(ctx context.Context, req *ListOffsetsRequest) (*Lis
 				partition: int(p.Partition),
 			}
 
-			partition := partitionOffsets[key]
+			partition, ok := partitionOffsets[key]
+			if !ok {
+				// The broker reported a partition that was not part of the
+				// request.
+				partition = PartitionOffsets{
+					Partition:   int(p.Partition),
+					FirstOffset: -1,
+					LastOffset:  -1,
+					Offsets:     make(map[int64]time.Time),
+				}
+			}
 
 			switch p.Timestamp {
 			case FirstOffset:
